@@ -302,31 +302,43 @@ static unsigned long seq_state_key(void)
 }
 
 /* let a lazily queued resize run (deterministic: the default schedule is round robin on yields) */
-static void settle(void)
+enum { W_LAZY_RESIZED = 0, W_PARTITIONED = 1, W_SEQ_DESTROYED = 2, W_WALK_CONCURRENT = 3, W_REMOVER_LOST = 4, W_ADDU_LOST = 5 };
+
+static int settle(void)
 {
+	unsigned long s0 = ht_size_quiet();
 	int i;
 
 	if (!(cfg_flags & CDS_LFHT_AUTO_RESIZE))
-		return;
-	for (i = 0; i < 40; i++) {
+		return 1;
+	for (i = 0; i < 60; i++) {
 		int busy;
 
 		vrt_quiet_begin();
 		busy = ht->resize_initiated || ht->size != ht->resize_target;
 		vrt_quiet_end();
-		if (!busy)
-			return;
+		if (!busy) {
+			/* one more round so that the worker is parked again */
+			vrt_yield();
+			vrt_yield();
+			if (ht_size_quiet() != s0)
+				vrt_witness(W_LAZY_RESIZED);
+			return 1;
+		}
 		vrt_yield();
 	}
+	return 0;
 }
 
 enum { S_ADD, S_ADDU, S_ADDR, S_REPL1, S_REPL2, S_DEL1, S_DEL2, S_REPLBAD, S_NKINDS };
-static const unsigned long rs_sizes[] = { 0, 1, 2, 3, 4, 5, 8, 16, ~0UL, 1UL << 63, 6, 7 };
+static const unsigned long rs_sizes_small[] = { 0, 1, 2, 3, 4, 5, 8, 16, ~0UL, 1UL << 63, 6, 7 };
+static const unsigned long rs_sizes_big[] = { 512, 256, 1024, 128, 0, 2048, 300, 64 };
 
 static void run_seq(void)
 {
 	int len = (int)vrt_param("len", 3), step, nrs = (int)vrt_param("nresize", 9);
-	int nops, destroyed = 0;
+	int nops, destroyed = 0, allowed[64], nallowed = 0, i, alpha_seq = (int)vrt_param("alpha_seq", 0);
+	const unsigned long *rs_sizes = vrt_param("big", 0) ? rs_sizes_big : rs_sizes_small;
 	char what[64];
 
 	nkeys = (int)vrt_param("keys", 2);
@@ -334,8 +346,16 @@ static void run_seq(void)
 		return;
 	seq_verify("creation");
 	nops = S_NKINDS * nkeys + nrs + 1;
+	for (i = 0; i < nops && nallowed < 64; i++) {
+		int k = i / nkeys;
+
+		/* alpha_seq 1: resize-centred alphabet (add, del, every resize, destroy) */
+		if (alpha_seq == 1 && i < S_NKINDS * nkeys && k != S_ADD && k != S_DEL1)
+			continue;
+		allowed[nallowed++] = i;
+	}
 	for (step = 0; step < len && !destroyed; step++) {
-		int c = vrt_choose(nops), kind, key, id, r;
+		int c = allowed[vrt_choose(nallowed)], kind, key, id, r;
 		struct cds_lfht_iter it;
 		struct cds_lfht_node *ret;
 
@@ -470,6 +490,7 @@ static void run_seq(void)
 			} else {
 				VRT_CHECK(r2 == 0, "%s: destroy of an empty table returned %d", what, r2);
 				destroyed = 1;
+				vrt_witness(W_SEQ_DESTROYED);
 				if (cfg_flags & CDS_LFHT_AUTO_RESIZE)
 					while (!vrt_is_freed(ht))	/* teardown is queued behind pending resizes */
 						vrt_yield();
@@ -480,10 +501,13 @@ static void run_seq(void)
 				break;
 			}
 		}
-		settle();
-		seq_verify(what);
-		if (step + 1 < len && vrt_state_seen(seq_state_key(), len - step - 1))
-			return;
+		{
+			int settled = settle();
+
+			seq_verify(what);
+			if (settled && step + 1 < len && vrt_state_seen(seq_state_key(), len - step - 1))
+				return;
+		}
 	}
 }
 
@@ -563,6 +587,8 @@ static void run_op(int tid, int slot, int b)
 		vrt_spec_read_lock();
 		h = vrt_h_call(OP_ADDU, id, key);
 		ret = cds_lfht_add_unique(ht, hash_of(key), match, &key, &nodes[id]->n);
+		if (ret != &nodes[id]->n)
+			vrt_witness(W_ADDU_LOST);
 		vrt_h_ret(h, id_of(ret));
 		vrt_spec_read_unlock();
 		break;
@@ -607,16 +633,28 @@ static void run_op(int tid, int slot, int b)
 		vrt_spec_read_unlock();
 		if (!r)
 			reclaim_node(old);
+		else
+			vrt_witness(W_REMOVER_LOST);
 		break;
-	case K_DELN:	/* del of a given pre-inserted node, whoever else is removing it */
+	case K_DELN:	/* del of a given pre-inserted node (found through a duplicate walk), whoever else removes it */
 		old = arg + 1;
+		key = node_key[old];
 		vrt_spec_read_lock();
+		cds_lfht_lookup(ht, hash_of(key), match, &key, &it);
+		while (cds_lfht_iter_get_node(&it) && cds_lfht_iter_get_node(&it) != &nodes[old]->n)
+			cds_lfht_next_duplicate(ht, match, &key, &it);
+		if (!cds_lfht_iter_get_node(&it)) {
+			vrt_spec_read_unlock();
+			break;
+		}
 		h = vrt_h_call(OP_DEL, old, 0);
 		r = cds_lfht_del(ht, &nodes[old]->n);
 		vrt_h_ret(h, r ? -1 : 0);
 		vrt_spec_read_unlock();
 		if (!r)
 			reclaim_node(old);
+		else
+			vrt_witness(W_REMOVER_LOST);
 		break;
 	case K_REPLN:	/* replace of a given pre-inserted node (found through a duplicate walk) */
 		old = arg + 1;
@@ -883,13 +921,21 @@ static void run_conc(void)
 	}
 	for (t = 1; t < 4; t++)
 		if (progs[t]) {
-			pthread_create(&th[t], NULL, prog_thread, (void *)(long)t);
+			vrt_pthread_create_nf(&th[t], NULL, prog_thread, (void *)(long)t);
 			nthreads_prog = t;
 		}
 	run_prog(0);
 	for (t = 1; t <= nthreads_prog; t++)
 		if (progs[t])
 			pthread_join(th[t], NULL);
+	{
+		int expect = 1 + (progs[1] != 0) + (progs[2] != 0) + (progs[3] != 0) + ((cfg_flags & CDS_LFHT_AUTO_RESIZE) ? 1 : 0);
+
+		if (vrt_thread_count() > expect)
+			vrt_witness(W_PARTITIONED);
+	}
+	if ((cfg_flags & CDS_LFHT_AUTO_RESIZE) && vrt_param("settle_end", 1))
+		settle();
 	/* quiescent: the final content is observed through the same history */
 	for (i = 0; i < 4; i++)
 		run_op(0, 5, B(K_LOOKUP, i));
